@@ -226,6 +226,7 @@ class KafkaClient(object):
         self._brokers = {}  # Broker-NodeID -> BrokerMetadata
         self._closing = False  # Are we shutting down/shutdown?
         self._bootstrap_requests = set()  # Deferreds of in-progress _send_bootstrap_request() calls
+        self._retry_delays = set()  # Deferreds of _load_topic_partitions() retry delays in progress
         self.update_cluster_hosts(hosts)  # Store hosts and mark for lookup
         if reactor is None:
             from twisted.internet import reactor
@@ -388,6 +389,10 @@ class KafkaClient(object):
         # or request is cancelled and the loop stops because _closing is set.
         for d in list(self._bootstrap_requests):
             d.cancel()
+        # Wake up _load_topic_partitions() calls sleeping before a retry: they
+        # fail with CancelledError now instead of when the delay has elapsed.
+        for d in list(self._retry_delays):
+            d.cancel()
         # clean up other outstanding operations
         self.reset_all_metadata()
         return self.close_dlist or defer.succeed(None)
@@ -460,7 +465,12 @@ class KafkaClient(object):
                     delay,
                 )
                 attempt += 1
-                yield task.deferLater(self.reactor, delay, lambda: None)
+                delay_d = task.deferLater(self.reactor, delay, lambda: None)
+                self._retry_delays.add(delay_d)
+                try:
+                    yield delay_d
+                finally:
+                    self._retry_delays.discard(delay_d)
 
             else:
                 log.debug("%r: load_topic_partitions -> %r", self, snapshot)
